@@ -170,7 +170,40 @@ type Core struct {
 	Big     []uint64 // a large piece of state: serializing it takes long (overlapping requests)
 	Queue   queueing.Buffer[int]
 	Level   obsBuf
-	s       *sim
+	// versioned state (C40, content at pause points): event K writes version 2K-1 (transient), parks at the
+	// mid gate, then writes version 2K.  A slice behind a map and a slice behind an interface.
+	Banks map[string][]uint64
+	Box   any // [][]uint64, replaced as a whole
+	ver   int
+	s     *sim
+}
+
+func stateLen(n int) int { return 2 + n%4 }
+
+func stateSlice(n, base int) []uint64 {
+	x := make([]uint64, stateLen(n))
+	for i := range x {
+		x[i] = uint64(n*1000 + base + i)
+	}
+	return x
+}
+
+// setState writes version n of the versioned state; a transient version has no bank "1".
+func (c *Core) setState(n int, transient bool) {
+	c.ver = n
+	if c.Banks == nil {
+		c.Banks = map[string][]uint64{}
+	}
+	c.Banks["0"] = stateSlice(n, 0)
+	if transient {
+		delete(c.Banks, "1")
+	} else {
+		c.Banks["1"] = stateSlice(n, 500)
+	}
+	c.Box = [][]uint64{stateSlice(n, 0)}
+	if n > 0 {
+		c.s.r.rec(map[string]any{"e": "set", "ver": n})
+	}
 }
 
 func (c *Core) Name() string { return c.name }
@@ -186,12 +219,14 @@ func (c *Core) Handle(e timing.Event) error {
 	if s.bar != nil {
 		s.bar.IncrementInProgress(1)
 	}
+	c.setState(2*ev.K-1, true)
 	s.r.gate("mid")
 	if s.freeSpin > 0 {
 		for i := 0; i < s.freeSpin; i++ {
 			s.spinOnce()
 		}
 	}
+	c.setState(2*ev.K, false)
 	c.Level.n = ev.K % 5
 	if c.Queue.Size() > 2 {
 		c.Queue.Pop()
@@ -265,6 +300,8 @@ type sim struct {
 	pending  chan rsp // response of the request in flight, if it did not return yet
 	pendEp   string
 	pendR    int
+	runUntil bool   // drive the engine through RunUntil (time-boundary flow) instead of Run
+	nextVar  string // variant of the next field request ("" = rotate)
 	bad      []string
 	engPanic atomic.Value
 	reqMax   time.Duration
@@ -275,6 +312,97 @@ type rsp struct {
 	code int
 	body string
 	err  error
+	v    *fieldVar
+}
+
+// fieldVar is one concrete /api/field request of an endpoint class of the model:
+//
+//	field           plain request (pauseForInspection, then goseth over the entry point)
+//	field_paged     slice_offset and/or slice_limit present: the monitor's own reflective walk + page
+//	field_missing   the path does not exist in the component's state: 404 after a walk over that state
+//	field_badparams malformed paging parameters: 400 from the parameter syntax alone (no simulation state)
+type fieldVar struct {
+	class, name, field, query string
+	code                      int
+	base                      int // >= 0: the content identifies a state version (element = ver*1000 + base + index)
+}
+
+var fieldVars = []fieldVar{
+	{"field", "map_plain", "Banks.0", "", 200, 0},
+	{"field", "iface_plain", "Box.0", "", 200, 0},
+	{"field_paged", "map_offset", "Banks.0", "?slice_offset=1", 200, 0},
+	{"field_paged", "map_limit", "Banks.0", "?slice_limit=2", 200, 0},
+	{"field_paged", "map_both", "Banks.0", "?slice_offset=0&slice_limit=10", 200, 0},
+	{"field_paged", "iface_both", "Box.0", "?slice_offset=0&slice_limit=10", 200, 0},
+	{"field_paged", "key_absent_midevent", "Banks.1", "?slice_offset=0&slice_limit=10", 200, 500},
+	{"field_paged", "direct", "Vals", "?slice_offset=0&slice_limit=4", 200, -1},
+	{"field_missing", "map_key_paged", "Banks.9", "?slice_offset=0&slice_limit=10", 404, -1},
+	{"field_missing", "index_paged", "Vals.99", "?slice_limit=3", 404, -1},
+	{"field_missing", "plain", "Nope", "", 404, -1},
+	{"field_missing", "map_key_plain", "Banks.9", "", 404, -1},
+	{"field_badparams", "offset_syntax", "Banks.0", "?slice_offset=abc", 400, -1},
+	{"field_badparams", "limit_zero", "Vals", "?slice_limit=0", 400, -1},
+	{"field_badparams", "offset_negative", "Nope", "?slice_offset=-1&slice_limit=3", 400, -1},
+}
+
+func pickFieldVar(class, name string, n int) *fieldVar {
+	var of []*fieldVar
+	for i := range fieldVars {
+		v := &fieldVars[i]
+		if v.class != class {
+			continue
+		}
+		if v.name == name {
+			return v
+		}
+		of = append(of, v)
+	}
+	if name != "" || len(of) == 0 || class == "field" {
+		return nil
+	}
+	return of[n%len(of)]
+}
+
+// decodeVer maps the content of a page / value response to the state version it shows; -1 = the content is
+// no version the simulation ever had between two events of its own (mixture, or an answer for a missing key).
+func decodeVer(x rsp) int {
+	if x.code != 200 {
+		return -1
+	}
+	var d struct {
+		R    any                       `json:"r"`
+		Dict map[string]map[string]any `json:"dict"`
+	}
+	if json.Unmarshal([]byte(x.body), &d) != nil {
+		return -1
+	}
+	root := d.Dict[fmt.Sprint(d.R)]
+	total, ok := root["l"].(float64)
+	ids, ok2 := root["v"].([]any)
+	if !ok || !ok2 || len(ids) == 0 {
+		return -1
+	}
+	off, _ := root["o"].(float64)
+	n := -1
+	for j, id := range ids {
+		v, ok := d.Dict[fmt.Sprint(id)]["v"].(float64)
+		if !ok {
+			return -1
+		}
+		e := int(v)
+		if e%1000 != x.v.base+int(off)+j {
+			return -1
+		}
+		if j == 0 {
+			n = e / 1000
+		} else if e/1000 != n {
+			return -1
+		}
+	}
+	if int(total) != stateLen(n) {
+		return -1
+	}
+	return n
 }
 
 func (s *sim) spinOnce() {
@@ -302,6 +430,7 @@ func newSim(nwork, gap int, monitored, logging bool) (*sim, error) {
 	s.core = &Core{name: "Core", Vals: make([]uint64, 4), Big: make([]uint64, bigN), s: s}
 	s.core.Queue = queueing.NewBuffer[int]("Core.Queue", 16)
 	s.core.Level = obsBuf{name: "Core.Level", r: s.r}
+	s.core.setState(0, false)
 	s.eng.RegisterHandler("Core", s.core)
 	s.tk = &Tk{s: s}
 	s.tk.TickingComponent = modeling.NewTickingComponent("Tk", s.eng, 1*timing.GHz, s.tk)
@@ -369,7 +498,11 @@ func (s *sim) startRun() {
 				s.engPanic.Store(fmt.Sprint(e))
 			}
 		}()
-		_ = s.eng.Run()
+		if s.runUntil {
+			_ = s.eng.RunUntil(timing.VTimeInPicoSec(1) << 60)
+		} else {
+			_ = s.eng.Run()
+		}
 		s.r.rec(map[string]any{"e": "ret"})
 	}()
 }
@@ -387,15 +520,28 @@ var endpointPath = map[string]string{
 	"list":      "/api/list_components",
 }
 
-func (s *sim) get(ep string) rsp {
+func (s *sim) getVar(ep, variant string, reqN int) rsp {
+	if v := pickFieldVar(ep, variant, reqN); v != nil {
+		q, _ := json.Marshal(map[string]string{"comp_name": "Core", "field_name": v.field})
+		res, err := s.client.Get(s.base + "/api/field/" + url.PathEscape(string(q)) + v.query)
+		if err != nil {
+			return rsp{err: err, v: v}
+		}
+		defer res.Body.Close()
+		b, err := io.ReadAll(res.Body)
+		return rsp{code: res.StatusCode, body: string(b), err: err, v: v}
+	}
+	if variant != "" {
+		return rsp{err: fmt.Errorf("unknown variant %q of endpoint class %q", variant, ep)}
+	}
 	p, ok := endpointPath[ep]
 	if !ok {
 		return rsp{err: fmt.Errorf("unknown endpoint class %q", ep)}
 	}
-	if ep == "component" && s.reqN%2 == 0 {
+	if ep == "component" && reqN%2 == 0 {
 		p = "/api/component/Tk"
 	}
-	if ep == "field" && s.reqN%3 == 0 {
+	if ep == "field" && reqN%3 == 0 {
 		p = "/api/field/" + url.PathEscape(`{"comp_name":"Core","field_name":"Vals"}`) + "?slice_offset=0&slice_limit=4"
 	}
 	res, err := s.client.Get(s.base + p)
@@ -408,8 +554,24 @@ func (s *sim) get(ep string) rsp {
 }
 
 func (s *sim) finishRsp(ep string, n int, x rsp) {
-	s.r.rec(map[string]any{"e": "rsp", "r": n, "ep": ep, "code": x.code})
-	if x.err != nil || x.code != 200 {
+	m := map[string]any{"e": "rsp", "r": n, "ep": ep, "code": x.code}
+	want := 200
+	if x.v != nil {
+		m["var"] = x.v.name
+		want = x.v.code
+		if x.v.base >= 0 && x.err == nil && (x.code == 200 || x.code == 404) {
+			ver := decodeVer(x)
+			m["ver"] = ver
+			if ver < 0 {
+				m["body"] = fmt.Sprintf("%.300s", x.body)
+			}
+		}
+		if x.v.base >= 0 && x.code == 404 {
+			want = 404 // judged as content (the key exists at every pause point), not as a failed request
+		}
+	}
+	s.r.rec(m)
+	if x.err != nil || x.code != want {
 		s.bad = append(s.bad, fmt.Sprintf("%s: code=%d err=%v body=%.80s", ep, x.code, x.err, x.body))
 	}
 }
@@ -445,7 +607,9 @@ func (s *sim) req(ep string, blockT time.Duration) {
 	n := s.reqN
 	s.r.rec(map[string]any{"e": "req", "r": n, "ep": ep})
 	ch := make(chan rsp, 1)
-	go func() { ch <- s.get(ep) }()
+	variant := s.nextVar
+	s.nextVar = ""
+	go func() { ch <- s.getVar(ep, variant, n) }()
 	// blocked = the monitor sits inside engine.Pause() for blockT (a slow response is waited for)
 	maxWait := 30 * time.Second
 	if s.reqMax > 0 {
@@ -582,11 +746,13 @@ type outcome struct {
 	Finished uint64   `json:"finished"`
 	InProg   uint64   `json:"in_progress"`
 	BigSum   uint64   `json:"big_sum"`
+	StateVer int      `json:"state_ver"`
+	Bank0    []uint64 `json:"bank0"`
 }
 
 func (s *sim) outcome() outcome {
 	o := outcome{Order: s.order, Counter: s.core.Counter, Vals: s.core.Vals, Queue: s.core.Queue.Elements(), Level: s.core.Level.n,
-		TkLeft: s.tk.Left, TkDone: s.tk.Done, DoneAt: s.tk.DoneAt}
+		TkLeft: s.tk.Left, TkDone: s.tk.Done, DoneAt: s.tk.DoneAt, StateVer: s.core.ver, Bank0: s.core.Banks["0"]}
 	for i, x := range s.core.Big {
 		o.BigSum += x * uint64(i+1)
 	}
@@ -648,6 +814,7 @@ func init() {
 			Gap        int      `json:"gap"`
 			Behaviours [][]step `json:"behaviours"`
 			BlockMs    int      `json:"block_ms"`
+		RunUntil   []int    `json:"run_until"` // gated: scenarios whose engine is driven by RunUntil(far future)
 			// free
 			Programs  int      `json:"programs"`
 			Requests  int      `json:"requests"`
@@ -716,15 +883,23 @@ func init() {
 					return nil, err
 				}
 				s.r.gating.Store(true)
+				for _, k := range in.RunUntil {
+					s.runUntil = s.runUntil || k == i
+				}
 				var eps []string
 				for _, st := range b {
 					switch st[0].(string) {
 					case "go":
 						s.goStep(3 * time.Millisecond)
-						s.pollPending(0)
+						if s.pending != nil {
+							s.pollPending(time.Millisecond) // log the response close to its arrival
+						}
 					case "req":
 						ep := st[1].(string)
 						eps = append(eps, ep)
+						if len(st) > 2 {
+							s.nextVar, _ = st[2].(string)
+						}
 						s.req(ep, time.Duration(in.BlockMs)*time.Millisecond)
 						if s.pending != nil {
 							res.Blocked++
